@@ -493,3 +493,29 @@ def rule_print(ctx, prop):
                               f"printed from format_ast's tree: a rewrite of the printed text cannot tell code from the inside of a "
                               f"string literal or comment (trailing blanks inside `[[ .. ]]`, line endings, quotes)", f.loc(s["sp"]), cfg)
     return rep
+
+
+def rule_verify_input(ctx, prop):
+    """--verify compares the output with the program the user gave, not with an intermediate tree"""
+    rep = Report(prop, "R-VERIFYINPUT", "the Ast kept by format_ast for output verification is a clone of its `input_ast` parameter itself - "
+                                        "taken before require sorting or any other transformation")
+    for cfg, prog in ctx.programs.items():
+        f = prog.fn("stylua_lib", "format_ast")
+        if not rep.anchor(f is not None, "format_ast", cfg):
+            continue
+        ast_params = [i for i in range(1, f.argc + 1) if f.locals[i].endswith("full_moon::ast::Ast")]
+        clones = [(b, t) for b, t in f.calls() if re.search(r"ToOwned>::to_owned$|Clone>::clone$", callee(t)) and t.get("dst")
+                  and f.local_ty(t["dst"]["l"]).endswith("full_moon::ast::Ast")]
+        if not rep.anchor(bool(ast_params) and len(clones) >= 1, "clone of the input Ast in format_ast", cfg):
+            continue
+        for b, t in clones:
+            roots = provenance(f, t["args"][0], into_aggs=False)
+            calls = sorted(r[1].split("::")[-1] for r in roots if r[0] == "call")
+            ok = any(r[0] == "arg" and r[1] in ast_params for r in roots) and not calls
+            rep.inst(f"{f.key} verification copy is taken from the parameter", {"derived_through": calls}, cfg, ok=ok)
+            if not ok:
+                rep.violation(f"{f.key} verification-copy-of-transformed-tree via={','.join(calls) or 'other'}",
+                              f"format_ast clones the tree it verifies against after {calls or 'a transformation'}: what --verify compares "
+                              f"the output with is no longer the user's program, so a difference introduced by that step (statements "
+                              f"reordered by sort_requires) is never reported and the file is rewritten", f.loc(t["sp"]), cfg)
+    return rep
